@@ -155,6 +155,11 @@ class JokerPrior:
                 )
                 raise ValueError(msg)
 
+        # The likelihood code reads this list by position (the k-th entry is the
+        # offset of the k-th additional data source, i.e. the parameter "dv0_k"),
+        # whereas everything downstream goes by name: keep it in name order
+        self.v0_offsets = [pars[name] for name in self._v0_offsets_equiv_units]
+
         # Enforce that the priors on all linear parameters are Normal (or a
         # subclass of Normal)
         for name in list(self._linear_equiv_units.keys()) + list(
